@@ -11,6 +11,7 @@ LIB-SSE CODE
 @description: 
 """
 import json
+import os
 import pathlib
 import pickle
 import shutil
@@ -22,11 +23,13 @@ if not _PROGRAM_PATH.exists():
 
 
 def check_sid_folder_exist(sid: str):
-    return _PROGRAM_PATH.joinpath(sid).exists()
+    # A service exists once its state file has been written: a folder left behind by a configuration upload that
+    # was interrupted before that point is not a service yet (the upload can simply be repeated).
+    return _PROGRAM_PATH.joinpath(sid).joinpath("service_meta").exists()
 
 
 def create_sid_folder(sid: str):
-    _PROGRAM_PATH.joinpath(sid).mkdir()
+    _PROGRAM_PATH.joinpath(sid).mkdir(exist_ok=True)
 
 
 def delete_sid_folder(sid: str):
@@ -55,8 +58,13 @@ def write_service_meta(sid: str, meta: dict):
     if not service_dir_path.exists():
         return
 
-    with open(service_dir_path.joinpath("service_meta"), "wb") as f:
+    # write to a temporary file and rename it over the state file, so that a crash leaves either the old or the
+    # new state behind, never a truncated file
+    meta_path = service_dir_path.joinpath("service_meta")
+    tmp_path = service_dir_path.joinpath("service_meta.tmp")
+    with open(tmp_path, "wb") as f:
         pickle.dump(meta, f)
+    os.replace(tmp_path, meta_path)
 
 
 def read_encrypted_database(sid: str) -> bytes:
